@@ -526,6 +526,47 @@ def main(tier):
             runs = runs[: r.randint(1, len(runs))]
         reins = tuple(k for k in range(len(runs)) if r.random() < 0.1)
         judge(name, buf, sub, dsub, runs, reins, "random-" + style)
+    # ---- E: the support zone itself: writes of runs (overlapping ones included) into a MemoryZone ----
+    from amoco.system.memory import MemoryZone
+    for zi in range(100 if quick else 6000):
+        if not dstreams:
+            break
+        name, buf, seq, dseq = r.choice(dstreams)
+        n = min(len(seq), 12)
+        lo = r.randrange(len(seq) - n + 1)
+        sub, dsub = seq[lo:lo + n], dseq[lo:lo + n]
+        ws = []
+        for _ in range(r.randint(2, 8)):
+            s0 = r.randrange(n)
+            ws.append((s0, r.randint(s0 + 1, min(n, s0 + 4))))
+        z, real = MemoryZone(), []
+        for (s0, e0) in ws:
+            nd = R.mk_node(sub[s0:e0])
+            try:
+                z.write(nd.data.address, nd)
+                real.append([[R.ival(m.vaddr), len(m.data.val), [R.ival(i.address) for i in m.data.val.data.instr]] for m in z._map])
+            except BaseException as ex:
+                real.append("error")
+                break
+        stream_j = [[d[0], O.ilen(d)] for d in dsub]
+        m = [x for x in drv.ask({"op": "zone", "stream": stream_j, "writes": [list(w) for w in ws]}) if x != "skipped"]
+        ck.case(("E", name, tuple(x[0] for x in stream_j), tuple(ws)), nontrivial=True)
+        ck.count("E.zone-histories")
+        ck.count("E.raises" if "error" in real else "E.ok")
+        # oracle: last write wins, per instruction: the zone must hold, for every instruction written so far,
+        # exactly one entry, in address order
+        if "error" not in real:
+            cov = set()
+            for (s0, e0) in ws:
+                cov |= set(range(s0, e0))
+            got = [a for ent in real[-1] for a in ent[2]]
+            if got != [stream_j[k][0] for k in sorted(cov)]:
+                ck.report("C18:zone:cover", "MemoryZone of nodes after writes %r of stream %r holds %r" % (ws, stream_j, real[-1]), "oracle",
+                          "correspondence Amoco.Cfg.addtomap ~ MemoryZone.addtomap", case={"kind": "zone", "isa": name, "stream": stream_j, "writes": ws},
+                          real=real[-1], model=m[-1] if m else None)
+                continue
+        if m != real:
+            corr.append(("zone:write", {"kind": "zone", "isa": name, "stream": stream_j, "writes": ws}, real, m))
     # a block of another decoding of the same bytes (overlay zone): outside the modelled fragment
     novl = 0
     for name, buf, seq, dseq in dstreams[: (3 if quick else 30)]:
